@@ -183,7 +183,8 @@ def rotationFromVector(ref_point_1, ref_point_2):
         tm([ref_point_1[0], ref_point_1[1], ref_point_1[2], x[0], x[1], ref_point_1[5]]) @ tm([0, 0, d, 0, 0, 0]),
         ref_point_2)
     x0 = np.array([ref_point_1[3], ref_point_1[4]])
-    xs = sci.optimize.fmin(res, x0, disp=False)
+    #fmin's default tolerances (1e-4) leave the axis up to a few 1e-3 rad off the target
+    xs = sci.optimize.fmin(res, x0, xtol=1e-10, ftol=1e-14, maxiter=4000, maxfun=8000, disp=False)
     ref_point_1[3] = xs[0]
     ref_point_1[4] = xs[1]
     return ref_point_1
